@@ -267,10 +267,33 @@ def long_drain_runs(role: str) -> t.Tuple[int, t.Dict[str, t.Dict[str, t.Any]]]:
                     e["count"] += 1
                 drained += len(exp)
                 check(f"data_to_send({amt})")
+    # a consumer that always lags: 1 KB messages, 700-octet drains, so the buffer never empties while >64 KiB go through
+    for amount in (700, 1, 16384):
+        s = L.LDAPClient() if role == "client" else L.LDAPServer()
+        if role == "server":
+            s.receive(sess.make_msg("SearchReq", 1).pack(sess.OPT))
+        expect, got = b"", b""
+        for k in range(120 if amount != 1 else 8):
+            val = bytes([65 + k % 26]) * 1000
+            if role == "client":
+                mid = s.extended_request("1.2", val)
+                expect += sess.reference_encoding(L.ExtendedRequest(mid, [], "1.2", val)) or b""
+            else:
+                s.search_result_entry(1, "cn=e", [L.PartialAttribute("a", [val])])
+                expect += sess.reference_encoding(L.SearchResultEntry(1, [], "cn=e", [L.PartialAttribute("a", [val])])) or b""
+            for _ in range(1 if amount != 1 else 300):
+                got += s.data_to_send(amount)
+            steps += 2
+        got += s.data_to_send()
+        if got != expect:
+            pos = next((i for i in range(min(len(got), len(expect))) if got[i] != expect[i]), min(len(got), len(expect)))
+            viol.setdefault(f"lagging-drain-stream-differs:{role}:{amount}", {"what": f"120 x 1 KB messages drained {amount} octets at a time: {len(got)} bytes out, {len(expect)} expected, first difference at offset {pos}", "history": ["lag", str(amount)], "count": 1})
     # large messages queued back to back, and one big drain while a partial incoming message is held
     big = b"v" * 70000
-    for pattern in ("BB", "BSB", "SBB", "BBS", "BBB"):
+    for pattern in ("BB", "BSB", "SBB", "BBS", "BBB", "B" * 20, "SB" * 10):
         for drains in ((), (0,), (1,), (65536,), (None,)):
+            if len(pattern) > 5 and drains not in ((), (1,)):
+                continue
             s = L.LDAPClient() if role == "client" else L.LDAPServer()
             if role == "server":
                 for i in range(1, 6):
@@ -278,12 +301,15 @@ def long_drain_runs(role: str) -> t.Tuple[int, t.Dict[str, t.Dict[str, t.Any]]]:
             expect = b""
             for j, ch in enumerate(pattern):
                 val = big if ch == "B" else b"s"
-                if role == "client":
-                    mid = s.extended_request("1.2", val)
-                    m = L.ExtendedRequest(mid, [], "1.2", val)
-                else:
-                    s.search_result_entry(j + 1, "cn=e", [L.PartialAttribute("a", [val])])
-                    m = L.SearchResultEntry(j + 1, [], "cn=e", [L.PartialAttribute("a", [val])])
+                try:
+                    if role == "client":
+                        mid = s.extended_request("1.2", val)
+                        m = L.ExtendedRequest(mid, [], "1.2", val)
+                    else:
+                        s.search_result_entry(j % 5 + 1, "cn=e", [L.PartialAttribute("a", [val])])
+                        m = L.SearchResultEntry(j % 5 + 1, [], "cn=e", [L.PartialAttribute("a", [val])])
+                except L.LDAPError:
+                    continue  # a refused send contributes nothing
                 expect += sess.reference_encoding(m) or b""
                 if j == 0:
                     for d in drains:
